@@ -324,6 +324,31 @@ static void fixed(void) {
     del(f);
     vh_count("text_roundtrips");
   }
+  /* records separated by ';' (none after the last one), read back one scan per record with "%li;" -- every chunking
+     of the reads gives the same data; at the last record the separator of the format meets the end of the file */
+  for (int n = 1; n <= 6; n++) {
+    var f = new(File, $S(path), $S("w"));
+    int64_t v[6];
+    vh.oplen = 0; vh.oplog[0] = 0; vh.nops = 0;
+    vh_op("%d records written with ';' between them, read back with %d calls of scan_from(\"%%li;\")", n, n);
+    int pos = 0;
+    for (int i = 0; i < n; i++) { v[i] = (int64_t)(i + 1) * 1000003 - 7 * n; pos = i ? print_to(f, pos, ";%li", $I(v[i])) : print_to(f, pos, "%li", $I(v[i])); }
+    sclose(f);
+    sopen(f, $S(path), $S("r"));
+    pos = 0;
+    for (int i = 0; i < n; i++) {
+      var x = new(Int, $I(-1)); var exc = NULL;
+      VH_CATCH(pos = scan_from(f, pos, "%li;", x), exc);
+      vh_evals(2);
+      if (exc) { vh_violation("C20:roundtrip:record-read-raised", "record %d of %d raised %s", i + 1, n, vh_exc_name(exc)); break; }
+      if (c_int(x) != v[i]) { vh_violation("C20:roundtrip:text-read-back-differs", "record %d of %d: wrote %" PRId64 ", read %" PRId64, i + 1, n, v[i], c_int(x)); break; }
+    }
+    vh_eval();
+    if (!seof(f)) { char c; if (sread(f, &c, 1) != 0) { vh_violation("C20:roundtrip:text-positions-differ", "%d records read, the file is not at its end", n); } }
+    sclose(f);
+    del(f);
+    vh_count("record_wise_reads");
+  }
   track = 0;
 }
 
